@@ -82,9 +82,10 @@ def gen(tier, rng):
             for level in range(4):
                 for mode in (1, 2):
                     if tier == "quick" and (level + mode + dl // 100) % 2: continue
-                    add(api="deflate", inp=data, level=level, wrap=[0, 3][(w + level) % 2], hist_bits=w, lbuf=3, dictmode=mode, dct=dct, mem=level % 3,
-                        calls=[[[len(data), 300][(level + mode) % 2], 1 << 16, [0, 1, 2][(w + level) % 3], 1]] * (len(data) // 300 + 2),
-                        meta={"family": "dict-small-window", "cpu": CPUS[(w + level + mode) % len(CPUS)], "dl": dl, "w": w})
+                    for late in (0, 512):      # 512: hist_bits is assigned after the dictionary calls (only the level is documented as needed before them)
+                        add(api="deflate", inp=data, level=level, wrap=[0, 3][(w + level) % 2], hist_bits=w, lbuf=3, dictmode=mode, dct=dct, mem=level % 3, prefill=late,
+                            calls=[[[len(data), 300][(level + mode) % 2], 1 << 16, [0, 1, 2][(w + level) % 3], 1]] * (len(data) // 300 + 2),
+                            meta={"family": "dict-small-window" + ("-chosen-after-dictionary" if late else ""), "cpu": CPUS[(w + level + mode) % len(CPUS)], "dl": dl, "w": w})
     # (c) dictionary calls in a wrong state must be refused; the stream must come out as if they had not been made
     for level in range(4):
         data = igz.corpus(rng, "text", 3000); dct = igz.corpus(rng, "text", 500)
